@@ -32,6 +32,16 @@
 //       as double).  Values outside that range (0, inf, NaN, denormal doubles) are executed
 //       but not judged.  Integers print digit-exact.
 //
+// Case keys:
+//   parse:lit=<literal>|via=<doc|top|str>|T=<double|float|int64|uint64|text>
+//       doc = "[lit]", top = the bare literal as the whole input, str = as<T>() on a string
+//       value; T=text = what serializeJson prints for the parsed integer.  A literal longer
+//       than 63 characters has every run of >= 8 equal characters written (<char>x<count>):
+//       1(0x600) is 1 followed by 600 zeros, 0.(0x511)1, (9x700), 1(0x162)e-162.
+//   print:<float|double>:<hex bits>          print:<int64|uint64|int32|uint32>:<hex bits>
+//   block loops journal print:float:<hhhh>0000-<hhhh>ffff (and print:double:<see>[0000-ffff]<fill>,
+//   print:double-of-float:...) but report every failing value under its own print:<type>:<bits> key.
+//
 // String values are always stored as OWNED strings (as<double>() on a linked string is
 // deviation D1 and belongs to C13/C14).
 #pragma once
@@ -934,17 +944,30 @@ inline void printBlocks(Ctx& C, PrintStats& S, char family, uint32_t nBlocks, co
   }
 }
 
-// (F)/(G) every float value, as float / as double
-inline void printAllFloats(Ctx& C, PrintStats& S, bool asDouble) {
-  if (asDouble)
-    printBlocks<double>(
-        C, S, 'G', 65536, [](uint32_t b) { return fmt("print:double-of-float:%04x0000-%04xffff", b, b); },
-        [](uint32_t b, uint32_t lo) { return double(floatOf((b << 16) | lo)); });
-  else
-    printBlocks<float>(
-        C, S, 'F', 65536, [](uint32_t b) { return fmt("print:float:%04x0000-%04xffff", b, b); },
-        [](uint32_t b, uint32_t lo) { return floatOf((b << 16) | lo); });
-  C.bound(asDouble ? "print(G): all 2^32 float values given as double" : "print(F): all 2^32 float values");
+// (F) every float value, given as float
+inline void printAllFloats(Ctx& C, PrintStats& S) {
+  printBlocks<float>(
+      C, S, 'F', 65536, [](uint32_t b) { return fmt("print:float:%04x0000-%04xffff", b, b); },
+      [](uint32_t b, uint32_t lo) { return floatOf((b << 16) | lo); });
+  C.bound("print(F): all 2^32 float values");
+}
+
+// (G) float-representable doubles: every (sign, float exponent 0..254) x every value of the
+// top 16 mantissa bits x the low 7 bits in {0, all ones, 0x55, 1}, given as double
+inline void printFloatGridAsDouble(Ctx& C, PrintStats& S) {
+  static const uint32_t fills[4] = {0, 0x7F, 0x55, 1};
+  printBlocks<double>(
+      C, S, 'G', 4 * 510,
+      [](uint32_t b) {
+        uint32_t se = b / 4;
+        return fmt("print:double-of-float:%03x[0000-ffff]%02x", (se / 255) * 0x100 + se % 255, fills[b & 3]);
+      },
+      [](uint32_t b, uint32_t lo) {
+        uint32_t se = b / 4, sign = se / 255, ex = se % 255;
+        return double(floatOf((sign << 31) | (ex << 23) | (lo << 7) | fills[b & 3]));
+      });
+  C.bound("print(G): float-representable doubles: every (sign, float exponent 0..254) x all 65536 values of the top 16 mantissa "
+          "bits x low 7 bits in {0, all ones, 0x55, 1}, given as double");
 }
 
 // (D) doubles: every (sign, exponent) x every value of the top 16 mantissa bits x the low 36
@@ -972,8 +995,8 @@ inline void runPrint(Ctx& C) {
   if (fam.find('f') != std::string::npos) printFamilyF(C, S, false);
   if (fam.find('g') != std::string::npos) printFamilyF(C, S, true);
   if (fam.find('d') != std::string::npos) printFamilyD(C, S);
-  if (fam.find('F') != std::string::npos) printAllFloats(C, S, false);
-  if (fam.find('G') != std::string::npos) printAllFloats(C, S, true);
+  if (fam.find('F') != std::string::npos) printAllFloats(C, S);
+  if (fam.find('G') != std::string::npos) printFloatGridAsDouble(C, S);
   if (fam.find('D') != std::string::npos) printDoubleGrid(C, S);
   C.metrics["print_values"] = double(S.values);
   C.metrics["print_values_judged"] = double(S.judged);
